@@ -58,6 +58,19 @@ func (e *ExtensionObject) Decode(b []byte) (int, error) {
 	}
 
 	length := buf.ReadUint32()
+	if length == 0 && buf.Error() == nil && e.EncodingMask != ExtensionObjectXML {
+		// An empty body is the complete encoding of a type without fields
+		// (e.g. DataTypeDefinition, MonitoringFilter): decode it to that
+		// type, like a body with surplus bytes, instead of to nil.
+		if v := eotypes.New(e.TypeID.NodeID); v != nil {
+			empty := NewBuffer(nil)
+			empty.ReadStruct(v)
+			if empty.Error() == nil {
+				e.Value = v
+			}
+		}
+		return buf.Pos(), buf.Error()
+	}
 	if length == 0 || length == 0xffffffff || buf.Error() != nil {
 		return buf.Pos(), buf.Error()
 	}
@@ -95,10 +108,12 @@ func (e *ExtensionObject) Encode() ([]byte, error) {
 		return buf.Bytes(), buf.Error()
 	}
 
-	// Decode leaves Value nil for an empty body and for a type that is not
-	// registered: encode an empty body instead of handing nil to the encoder.
+	// Decode leaves Value nil for a null body and for a type that is not
+	// registered: encode a null body (length -1) instead of handing nil to
+	// the encoder. An empty body (length 0) would decode to the zero value
+	// of a registered type without fields.
 	if e.Value == nil {
-		buf.WriteUint32(0)
+		buf.WriteUint32(0xffffffff)
 		return buf.Bytes(), buf.Error()
 	}
 
